@@ -39,6 +39,7 @@ pub mod client {
 pub mod server {
     use anyhow::Result;
     use anyhow::anyhow;
+    use anyhow::bail;
     use futures::SinkExt;
     use futures::StreamExt;
     use tokio::net::TcpStream;
@@ -46,6 +47,8 @@ pub mod server {
     use tokio_util::codec::FramedWrite;
 
     use crate::protocol::socks5::Socks5AuthMethod;
+    use crate::protocol::socks5::Socks5CommandStatus;
+    use crate::protocol::socks5::Socks5CommandType;
     use crate::protocol::socks5::codec::Socks5CommandRequestDecoder;
     use crate::protocol::socks5::codec::Socks5InitialRequestDecoder;
     use crate::protocol::socks5::codec::Socks5ServerEncoder;
@@ -61,6 +64,10 @@ pub mod server {
         let mut writer = FramedWrite::new(wh, Socks5ServerEncoder);
         writer.send(Box::new(Socks5InitialResponse::new(Socks5AuthMethod::NoAuth))).await?;
         let command_request = reader.next().await.ok_or_else(|| anyhow!("connection closed during the SOCKS5 handshake"))??;
+        if command_request.command_type == Socks5CommandType::Bind {
+            writer.send(Box::new(Socks5CommandResponse::new(Socks5CommandStatus::Failure, response.bnd_addr))).await?;
+            bail!("unsupported SOCKS5 command: BIND");
+        }
         writer.send(Box::new(response)).await?;
         Ok(command_request)
     }
